@@ -204,10 +204,21 @@ class Inliner:
         self.counter = 0
         self.max_depth = max_depth
         self.inlined = []
+        self._pre = {}
         self.modfuncs = {st.name: st for st in module.body if isinstance(st, FUNC)}
         self.methods = methods_of(cls, raw=True) if cls is not None else {}
 
     def helper_for(self, call, nested):
+        h, skip = self._helper_for(call, nested)
+        if h is not None:
+            from .normalize import prenormalize_helper
+            key = id(h)
+            if key not in self._pre:
+                self._pre[key] = prenormalize_helper(h)
+            h = self._pre[key]
+        return h, skip
+
+    def _helper_for(self, call, nested):
         f = call.func
         if isinstance(f, ast.Name):
             name = f.id
